@@ -35,6 +35,47 @@ class Missing(Exception):
         self.path, self.by = path, by
 
 
+# --- parents and ids after include processing (finding D71 inside the model: Phil.IncludeParents) -----------------
+P_CASES, P_REQS, P_IMPLS = [], [], []
+
+
+def parents_j(r):
+    """for every object of the expanded tree, document order: full_path(), primary_id, the number of scopes reached by
+    climbing primary_parent_scope, and what parent.lexical_get(name, stop_id=primary_id) finds for every name of the tree"""
+    nodes = []
+
+    def walk(sc):
+        for o in sc.objects:
+            nodes.append(o)
+            if o.is_scope:
+                walk(o)
+    walk(r)
+    names = []
+    for o in nodes:
+        if o.name not in names:
+            names.append(o.name)
+    out = []
+    for o in nodes:
+        depth, p = 0, o.primary_parent_scope
+        while p is not None:
+            depth, p = depth + 1, p.primary_parent_scope
+        found = []
+        for n in names:
+            f = None
+            if o.primary_parent_scope is not None and o.primary_id is not None:
+                f = o.primary_parent_scope.lexical_get(path=n, stop_id=o.primary_id)
+            found.append(None if f is None else [enc(f.name), f.primary_id, bool(f.is_definition)])
+        out.append([enc(o.full_path()), o.primary_id, depth, found])
+    return out
+
+
+def parents_stream(case, req, root):
+    """second correspondence stream on the same input: op `expandp`"""
+    P_CASES.append(case)
+    P_REQS.append(["expandp"] + list(req[1:]))
+    P_IMPLS.append(call_j(lambda: freephil.parse(file_name=root, process_includes=True), parents_j))
+
+
 def full_paths(sc, out=None):
     """full_path() of every object of a parsed tree, document order"""
     out = [] if out is None else out
@@ -144,6 +185,7 @@ def graphs(ctx):
 
 
 def run(ctx):
+    del P_CASES[:], P_REQS[:], P_IMPLS[:]
     rng = ctx.rng
     base = "/var/tmp/verif-c13-%d" % os.getpid()
     cwd = os.getcwd()
@@ -218,6 +260,7 @@ def run(ctx):
             cases.append(case)
             reqs.append(["expand", [[enc(file_path(base, i)), enc(t)] for i, t in enumerate(texts)], enc(root)])
             impls.append(ia)
+            parents_stream(case, reqs[-1], root)
             if len(ctx.samples) < 3 and any(graph):
                 ctx.sample({"graph": case["graph"], "root_text": texts[0], "cycle": want_cycle is not None})
         # directory arrangements: absent targets, same relative name present under other anchor directories
@@ -245,6 +288,9 @@ def run(ctx):
         shutil.rmtree(base, ignore_errors=True)
     if reqs and ctx.mode != "impl-only":
         ctx.corr("expand", cases, reqs, impls)
+        ctx.corr("expandp", P_CASES, P_REQS, P_IMPLS)
+        ctx.count("expandp_traces", len(P_REQS))
+        ctx.count("expandp_nodes", sum(len(i[1]) for i in P_IMPLS if i and i[0] == "ok"))
 
 
 def inline_fs(fs, path, stack, by=None):
@@ -388,6 +434,7 @@ def arrangement_round(rng, ctx, base, cases, reqs, impls):
         cases.append(case)
         reqs.append(["expand", [[enc(p), enc(t)] for p, t in sorted(fs.items())], enc(root)])
         impls.append(ia)
+        parents_stream(case, reqs[-1], root)
     finally:
         for pth in written:
             try:
@@ -521,6 +568,7 @@ def history_round(rng, ctx, base, cases, reqs, impls):
             cases.append(case)
             reqs.append(["expand", [[enc(p), enc(t)] for p, t in sorted(fs.items())], enc(root)])
             impls.append(ia)
+            parents_stream(case, reqs[-1], root)
             if f:
                 ctx.fail(case, "after %d step(s) on the files of one process: %s" % (step, f))
                 ctx.count("hist_failed")
@@ -706,6 +754,7 @@ def mixed_round(rng, ctx, base, cases, reqs, impls):
         reqs.append(["expand", [[enc(file_path(base, i)), enc(t)] for i, t in enumerate(ftexts)], enc(root),
                      [[enc("%s.t%d" % (INC_MOD, k)), enc(t)] for k, t in enumerate(stexts)], enc(cwdir)])
         impls.append(ia)
+        parents_stream(case, reqs[-1], root)
     finally:
         sys.modules.pop(INC_MOD, None)
 
